@@ -344,6 +344,56 @@ def legacy_file_opened(prog, rep):
                 rep.check(not hit, "LEGACY-RO", "PeeweeStorage", f"pragmas {keys}", "no pragma that is persisted in the file", f"the peewee database is opened with pragmas {hit}: these are written into the database file (journal_mode=wal rewrites the header and leaves -wal / -shm files), so merely opening the legacy store for the migration modifies the legacy file", f"{fi.mod.relpath}:{c.lineno}")
 
 
+LEGACY_V2 = {
+    # the on-disk format of peewee-sqlite.v2.db: column -> (field class, index-relevant options).  This is a fact about files
+    # that exist on users' disks, not about the code: it does not move with a refactoring
+    "BucketModel": {"key": ("IntegerField", {"primary_key"}), "id": ("CharField", {"unique"}), "created": ("DateTimeField", set()), "name": ("CharField", set()), "type": ("CharField", set()), "client": ("CharField", set()), "hostname": ("CharField", set()), "datastr": ("CharField", set())},
+    "EventModel": {"id": ("AutoField", set()), "bucket": ("ForeignKeyField", {"index"}), "timestamp": ("DateTimeField", {"index"}), "duration": ("DecimalField", set()), "datastr": ("CharField", set())},
+}
+
+
+def legacy_schema(prog, rep, rule="LEGACY-RO"):
+    """opening the legacy file creates nothing in it: the models declare the columns and indexes the v2 file already has"""
+    rep.rule("LEGACY-SCHEMA", "the peewee models declare exactly the columns, unique constraints and indexes of the v2 file format (BucketModel: key pk, id unique, created, name, type, client, hostname, datastr; EventModel: id, bucket indexed, timestamp indexed, duration, datastr; no Meta.indexes): PeeweeStorage.__init__ runs create_tables(safe=True), which issues CREATE INDEX IF NOT EXISTS for every declared index, so an index the file does not have is CREATED IN THE LEGACY FILE when the migration opens it, and a column it does not have makes every read of the legacy store fail")
+    for cname, want in LEGACY_V2.items():
+        ci = prog.cls(cname)
+        have = {}
+        und = None
+        for st in ci.node.body:
+            if isinstance(st, (ast.Assign, ast.AnnAssign)):
+                tg = st.targets[0] if isinstance(st, ast.Assign) else st.target
+                v = st.value
+                if isinstance(tg, ast.Name) and isinstance(v, ast.Call) and norm(v.func).split(".")[-1].endswith("Field"):
+                    opts = set()
+                    for k in v.keywords:
+                        if k.arg in ("index", "unique", "primary_key") and not (isinstance(k.value, ast.Constant) and not k.value.value):
+                            opts.add(k.arg)
+                        if k.arg in ("column_name", "db_column", "constraints"):
+                            und = und or (st, k.arg)
+                    have[tg.id] = (norm(v.func).split(".")[-1], opts)
+            if isinstance(st, ast.ClassDef) and st.name == "Meta":
+                for ms in st.body:
+                    if isinstance(ms, ast.Assign) and any(isinstance(t, ast.Name) and t.id in ("indexes", "constraints", "primary_key", "table_name", "db_table", "without_rowid") for t in ms.targets):
+                        nm = [t.id for t in ms.targets if isinstance(t, ast.Name)][0]
+                        empty = isinstance(ms.value, (ast.Tuple, ast.List)) and not ms.value.elts
+                        if not empty:
+                            rep.violation("LEGACY-SCHEMA", cname, f"Meta.{nm}", f"`{norm(ms)[:80]}` declares something the v2 file format does not have: create_tables(safe=True) in PeeweeStorage.__init__ issues the matching CREATE ... IF NOT EXISTS against whatever file is opened, so the legacy database is altered by merely being opened for the migration", f"{ci.mod.relpath}:{ms.lineno}")
+        if und:
+            rep.undecided("LEGACY-SCHEMA", cname, f"field option {und[1]}", "column naming / constraints overridden: cannot compare with the v2 file format", f"{ci.mod.relpath}:{und[0].lineno}")
+            continue
+        extra = sorted(set(have) - set(want))
+        missing = sorted(set(want) - set(have))
+        idx = sorted(k for k in set(have) & set(want) if (have[k][1] - {"primary_key"}) != (want[k][1] - {"primary_key"}))
+        why = []
+        if extra:
+            why.append(f"declares column(s) {extra} the v2 file does not have (reads of the legacy store fail: no such column)")
+        if missing:
+            why.append(f"no longer declares column(s) {missing} of the v2 file (their values are not migrated)")
+        if idx:
+            why.append("changes the index / unique options of " + ", ".join(f"{k}: {sorted(want[k][1])} -> {sorted(have[k][1])}" for k in idx) + " (create_tables creates the new index in the legacy file when the migration opens it)")
+        rep.check(not why, "LEGACY-SCHEMA", cname, "columns and indexes", "those of the v2 file format", f"{cname} " + "; ".join(why), f"{ci.mod.relpath}:{ci.node.lineno}")
+
+
 def trigger(prog, rep):
     rep.rule("TRIGGER", "SqliteStorage.__init__ calls check_for_migration(self) on the path (new db file and no custom filepath), after the CREATE statements and their commit; check_for_migration builds the legacy file name with the same -testing suffix rule and version as PeeweeStorage.__init__ (both string expressions are folded for testing in {True, False} and compared), opens the legacy store with the same testing flag, and migrates when a matching file exists")
     init = prog.func("SqliteStorage.__init__")
@@ -402,9 +452,12 @@ def trigger(prog, rep):
             order["new"] = n.lineno
         if isinstance(n, ast.Call) and norm(n.func) == "sqlite3.connect":
             order["connect"] = n.lineno
-        if isinstance(n, ast.Call) and norm(n.func) == "self.commit":
-            order.setdefault("commit", n.lineno)
     creates = [s for s in sql_sites(prog) if s.fi is init and s.stmt.kind == "create_table"]
+    # the commit that follows the CREATE statements (a later one, e.g. after the migration, is not this one)
+    commits = sorted(n.lineno for n in walk_own(init.node) if isinstance(n, ast.Call) and norm(n.func) == "self.commit")
+    after_creates = [l for l in commits if all(s.call.lineno < l for s in creates)]
+    if after_creates:
+        order["commit"] = after_creates[0]
     oko = order.get("new", 10**9) < order.get("connect", 0) and all(s.call.lineno < order.get("commit", 0) for s in creates) and order.get("commit", 10**9) < c.lineno and len(creates) == 2
     rep.check(oko, "TRIGGER", init.short, "ordering", "existence test before connect; tables created and committed before migrating", f"ordering broken (lines: {order}, creates {[s.call.lineno for s in creates]}, migrate {c.lineno}): e.g. testing for the file after connect() has created it means the migration never runs", init.loc(c))
     # name agreement
@@ -519,6 +572,11 @@ def check(prog, rep):
     legacy_read_only(prog, rep, fi)
     trigger(prog, rep)
     legacy_file_opened(prog, rep)
+    legacy_schema(prog, rep)
+    # the migration's rows are written through the lazy path: nothing after it may need a closed transaction
+    from ..rules_commit import txn_free
+
+    txn_free(prog, rep)
     # "same instant, duration and data": what the legacy store decodes and the new store encodes (tables and scale constants)
     codec_sqlite(prog, rep)
     codec_peewee(prog, rep)
@@ -551,6 +609,10 @@ VARIANTS = [
     ("B events fetched with a stale loop variable", MG, "        bucket_events = pw_db.get_events(bucket_id, -1)", "        pass\n    for bucket in buckets.values():\n        bucket_events = pw_db.get_events(bucket_id, -1)", "VISIT-ALL"),
     ("B sqlite bulk insert drops the days of a duration", SQ, "            endtime = starttime + (event.duration.total_seconds() * 1000000)\n            datastr = json.dumps(event.data)\n            event_rows.append", "            endtime = starttime + (event.duration.seconds * 1000000)\n            datastr = json.dumps(event.data)\n            event_rows.append", "CODEC"),
     ("B opening the legacy store normalises NULL datastr in place", "aw_datastore/storages/peewee.py", "    db.close()\n", "    db.execute_sql(\"UPDATE bucketmodel SET datastr = '{}' WHERE datastr IS NULL\")\n    db.close()\n", "LEGACY-RO"),
+    ("B composite index declared on the event model", "aw_datastore/storages/peewee.py", "    datastr = CharField()\n\n    @classmethod\n", "    datastr = CharField()\n\n    class Meta:\n        indexes = (((\"bucket\", \"timestamp\"), False),)\n\n    @classmethod\n", "LEGACY-SCHEMA"),
+    ("B duration column indexed", "aw_datastore/storages/peewee.py", "    duration = DecimalField()\n", "    duration = DecimalField(index=True)\n", "LEGACY-SCHEMA"),
+    ("B WAL checkpoint right after the migration", SQ, "            check_for_migration(self)\n", "            check_for_migration(self)\n            self.conn.execute(\"PRAGMA wal_checkpoint(TRUNCATE);\")\n", "TXN-FREE"),
+    ("OK WAL checkpoint after the migration and a commit", SQ, "            check_for_migration(self)\n", "            check_for_migration(self)\n            self.commit()\n            self.conn.execute(\"PRAGMA wal_checkpoint(TRUNCATE);\")\n", "ok"),
     ("OK buckets created first, events copied in a second loop", MG, "        bucket_events = pw_db.get_events(bucket_id, -1)", "        pass\n    for bucket_id in buckets:\n        bucket_events = pw_db.get_events(bucket_id, -1)", "ok"),
     ("OK ids cleared by rebuilding events", MG, "        for event in bucket_events:\n            event.id = None\n        datastore.insert_many(bucket_id, bucket_events)", "        fresh = [Event(timestamp=e.timestamp, duration=e.duration, data=e.data) for e in bucket_events]\n        datastore.insert_many(bucket_id, fresh)", "ok"),
     ("OK keyword arguments", MG, '            bucket["name"],\n            bucket["data"],\n', '            name=bucket["name"],\n            data=bucket["data"],\n', "ok"),
